@@ -864,7 +864,11 @@ class tensor:
                 classidx[:, thisgrp] = np.sort(idx[:, thisgrp], axis=1)
 
                 # Compare each element to its class exemplar
-                if np.any(self.data.ravel() != self.data[tuple(classidx.transpose())]):
+                # idx enumerates the elements in the tensor's own (F) order
+                if np.any(
+                    self.data.ravel(order=self.order)
+                    != self.data[tuple(classidx.transpose())]
+                ):
                     return False
 
             # We survived all the tests!
@@ -1467,11 +1471,13 @@ class tensor:
                 linclassidx = tt_sub2ind(self.shape, classidx)
 
                 # Compare each element to its class exemplar
-                if np.all(data.ravel() == data[tuple(classidx.transpose())]):
+                # idx enumerates the elements in the tensor's own (F) order
+                flat_data = data.ravel(order=self.order)
+                if np.all(flat_data == data[tuple(classidx.transpose())]):
                     continue
 
                 # Take average over all elements in the same class
-                classSum = accumarray(linclassidx, data.ravel())
+                classSum = accumarray(linclassidx, flat_data)
                 classNum = accumarray(linclassidx, 1)
                 # We ignore this division error state because if we don't have an entry
                 # in linclassidx we won't reference the inf or nan in the slice below
